@@ -62,7 +62,9 @@ CLAIMED['C16'] = dict(
          "counterexamples are replayed with broken literals (root file, standard input, out-of-line module) and with the cfg-guarded fault hook "
          "RUSTFMT_VERIF_FAULT that makes the formatting of one macro call / one snippet panic in the real binary. Defects found and fixed in this area: the root parser was created outside catch_unwind (44be904); parse_expr dropped the parser's "
          "diagnostic (19eeceb); an inventory entry for MacroBranch::rewrite was wrong, the subtraction underflows inside the usable page (19cacc5).",
-    design='§5 C16')
+    design='§5 C16',
+    technique="bounded and under-constrained symbolic execution of the crate's own MIR (mirsym), obligations decided by SMT solvers (cvc5, z3), counterexamples replayed natively "
+              "(stress corpus, broken literals, cfg-guarded fault hook); an audited inventory of unchecked subtractions bounds what the wide scan has to decide")
 
 CLAIMED['C07'] = dict(
     category='model_checking',
@@ -201,7 +203,8 @@ CLAIMED['C09'] = dict(
          "src and two crafted files; --print-config per edition / per max_width against the frozen table; crafted mod / extern crate lists against the "
          "outputs the pinned release printed (reference/c09_release_ordering.json, frozen once by tools/c09_freeze.py).",
     design='§5 C09',
-    technique="solver-decided non-interference per decision site: MIR scan + symbolic execution of the real partial_cmp (mirsym), cvc5/z3; corpus replay")
+    technique="solver-decided non-interference per decision site: MIR scan + symbolic execution of the real partial_cmp (mirsym), cvc5/z3; differential obligations against frozen "
+              "values of the pinned release (option defaults, scaled widths in IEEE binary32, comparator choice); corpus / print-config replay")
 
 CLAIMED['C11'] = dict(
     category='model_checking',
@@ -219,7 +222,9 @@ CLAIMED['C11'] = dict(
          "concrete length, str::cmp as a ground-instantiated total order on chunk texts with digits < letters, zip_longest/EitherOrBoth cursor. Outside: "
          "attachment of comments and attributes to the moved elements (AST), the <= 2021 UseSegment order, compare_items beyond its comparator choice (C09), "
          "permutation -> same text. The sort-site part is a contract audit of call sites, not a proof about std's sort.",
-    design='§5 C11')
+    design='§5 C11',
+    technique="bounded symbolic execution of the crate's own MIR (mirsym), obligations decided by SMT solvers (cvc5, z3), counterexamples replayed natively; "
+              "for the sort sites: MIR call-site scan with a two-element solver model of each routine's documented contract")
 
 CLAIMED['C03'] = dict(
     category='model_checking',
